@@ -120,11 +120,14 @@ Section ConcFacts.
           exists k, micro_iter k (seq_puts s0 l') id v MCheck = (sh c, pc)
     end.
 
-  Lemma cstep_inv (s0 : st) c i : length (node s0) = 32%nat -> CInv s0 c -> CInv s0 (cstep true c i).
+  Lemma cstep_inv (s0 : st) c i : length (node s0) = 32%nat -> CInv s0 c -> CInv s0 (cstep true false c i).
   Proof.
     intros HN (NE & I). unfold StorageConc.cstep. destruct (nth_error (thrs c) i) as [t|] eqn:Ti; [|now split].
+    cbn [andb].
     destruct (lock c) as [h|] eqn:L.
-    - destruct I as (th & id & v & pc & l' & Th & Ch & Oth & LG & k & RK).
+    - assert (TK : taken c = true) by (unfold taken; now rewrite L).
+      assert (HH : holds c h = true) by (unfold holds; rewrite L; apply Nat.eqb_refl).
+      destruct I as (th & id & v & pc & l' & Th & Ch & Oth & LG & k & RK).
       destruct (Nat.eq_dec i h) as [->|NI].
       + rewrite Ti in Th. inversion Th; subst th. rewrite Ch.
         assert (DONE : forall r, pc = MDone r ->
@@ -143,13 +146,14 @@ Section ConcFacts.
             + intros j t' NJ Hj. rewrite nth_replace_other in Hj by congruence. eapply Oth; eassumption.
             + split; [exact LG|]. exists (k + 1)%nat. rewrite micro_iter_add, RK. cbn [StorageConc.micro_iter]. now rewrite M. }
         destruct pc; try (destruct (micro (sh c) id v _) as [s' pc'] eqn:M; rewrite L in STEP; now apply STEP).
-        cbn [andb]. eapply DONE. reflexivity.
+        rewrite HH. cbn [andb]. eapply DONE. reflexivity.
       + assert (Ct : cur t = None) by (eapply Oth; eassumption). rewrite Ct.
-        destruct (todo t) as [|[id' v'] rest]; [|cbn [andb]]; (split; [exact NE|]); rewrite L;
+        destruct (todo t) as [|[id' v'] rest]; [|rewrite TK; cbn [andb]]; (split; [exact NE|]); rewrite L;
           exists th, id, v, pc, l'; repeat split; try assumption; exists k; exact RK.
-    - destruct I as (AllN & SH). rewrite (AllN i t Ti).
+    - assert (TK : taken c = false) by (unfold taken; now rewrite L).
+      destruct I as (AllN & SH). rewrite (AllN i t Ti).
       destruct (todo t) as [|[id v] rest] eqn:TD; [split; [exact NE|]; rewrite L; now split|].
-      cbn [andb]. split; [exact NE|]. cbn [lock thrs sh log].
+      rewrite TK. cbn [andb]. split; [exact NE|]. cbn [lock thrs sh log].
       eexists _, id, v, MCheck, (log c). split; [eapply nth_replace_same; exact Ti|]. split; [reflexivity|]. split.
       + intros j t' NJ Hj. rewrite nth_replace_other in Hj by congruence. eapply AllN; exact Hj.
       + split; [reflexivity|]. exists 0%nat. cbn [StorageConc.micro_iter]. now rewrite SH.
@@ -161,7 +165,7 @@ Section ConcFacts.
     intros i t H. apply nth_error_In in H. apply in_map_iff in H as (w & <- & _). reflexivity.
   Qed.
 
-  Theorem exec_locked_inv (s0 : st) sched : forall c, length (node s0) = 32%nat -> CInv s0 c -> CInv s0 (exec true c sched).
+  Theorem exec_locked_inv (s0 : st) sched : forall c, length (node s0) = 32%nat -> CInv s0 c -> CInv s0 (exec true false c sched).
   Proof.
     induction sched as [|i r IH]; intros c HN I; [exact I|]. cbn [StorageConc.exec fold_left].
     apply IH; [exact HN | now apply cstep_inv].
@@ -170,7 +174,7 @@ Section ConcFacts.
   (* EVERY schedule: whenever nobody is inside Put - in particular when all goroutines have finished - the shared
      store is exactly the result of the Puts started so far, executed one after another in lock-acquisition order *)
   Theorem locked_is_serial (s0 : st) work sched : length (node s0) = 32%nat ->
-    let c := exec true (start s0 work) sched in
+    let c := exec true false (start s0 work) sched in
     (lock c = None -> sh c = seq_puts s0 (log c)) /\
     (quiescent c = true -> lock c = None).
   Proof.
@@ -185,33 +189,63 @@ Section ConcFacts.
   (* the Puts that ran are Puts some goroutine was given *)
   Definition JInv (W : list (bytes * V)) (c : cstate (V:=V)) : Prop :=
     (forall p, In p (log c) -> In p W) /\
-    (forall i t p, nth_error (thrs c) i = Some t -> In p (todo t) -> In p W).
+    (forall i t p, nth_error (thrs c) i = Some t -> In p (todo t) -> In p W) /\
+    (forall i t id v pc, nth_error (thrs c) i = Some t -> cur t = Some (id, v, pc) -> In (id, v) W).
 
-  Lemma cstep_jinv W locked c i : JInv W c -> JInv W (cstep locked c i).
+  Lemma cstep_jinv W locked outside c i : JInv W c -> JInv W (cstep locked outside c i).
   Proof.
-    intros (JL & JT). unfold StorageConc.cstep. destruct (nth_error (thrs c) i) as [t|] eqn:Ti; [|now split].
+    intros (JL & JT & JC). unfold StorageConc.cstep. destruct (nth_error (thrs c) i) as [t|] eqn:Ti; [|now repeat split].
+    (* replacing goroutine i by one whose todo is part of the old one and whose current Put is known *)
     assert (REPL : forall td cu, (forall p, In p td -> In p (todo t)) ->
-              forall j t' p, nth_error (replace_nth (thrs c) i {| todo := td; cur := cu |}) j = Some t' -> In p (todo t') -> In p W).
-    { intros td cu SUB j t' p Hj Hp. destruct (Nat.eq_dec i j) as [<-|NJ].
-      - rewrite (nth_replace_same _ _ _ _ Ti) in Hj. inversion Hj; subst t'. cbn [todo] in Hp. eapply JT; [exact Ti | now apply SUB].
-      - rewrite nth_replace_other in Hj by exact NJ. eapply JT; eassumption. }
-    destruct (cur t) as [[[id v] pc]|].
-    - destruct pc; try (destruct (micro (sh c) id v _) as [s' pc']); (split; [exact JL | cbn [thrs]; apply REPL; tauto]).
-    - destruct (todo t) as [|[id v] rest] eqn:TD; [now split|].
-      destruct (locked && _); [now split|]. split; cbn [log thrs].
-      + intros p Hp. apply in_app_or in Hp as [Hp|[<-|[]]]; [now apply JL|]. eapply JT; [exact Ti|]. try rewrite TD. now left.
-      + apply REPL. intros p Hp. try rewrite TD. now right.
+              (forall id v pc, cu = Some (id, v, pc) -> In (id, v) W) ->
+              (forall j t' p, nth_error (replace_nth (thrs c) i {| todo := td; cur := cu |}) j = Some t' -> In p (todo t') -> In p W) /\
+              (forall j t' id v pc, nth_error (replace_nth (thrs c) i {| todo := td; cur := cu |}) j = Some t' ->
+                 cur t' = Some (id, v, pc) -> In (id, v) W)).
+    { intros td cu SUB CU. split.
+      - intros j t' p Hj Hp. destruct (Nat.eq_dec i j) as [<-|NJ].
+        + rewrite (nth_replace_same _ _ _ _ Ti) in Hj. inversion Hj; subst t'. cbn [todo] in Hp. eapply JT; [exact Ti | now apply SUB].
+        + rewrite nth_replace_other in Hj by exact NJ. eapply JT; eassumption.
+      - intros j t' id v pc Hj Hc. destruct (Nat.eq_dec i j) as [<-|NJ].
+        + rewrite (nth_replace_same _ _ _ _ Ti) in Hj. inversion Hj; subst t'. cbn [cur] in Hc. eapply CU; exact Hc.
+        + rewrite nth_replace_other in Hj by exact NJ. eapply JC; eassumption. }
+    destruct (cur t) as [[[id v] pc]|] eqn:Ct.
+    - assert (PW : In (id, v) W) by (eapply JC; eassumption).
+      assert (SAME : forall cu, (forall id' v' pc', cu = Some (id', v', pc') -> (id', v') = (id, v)) ->
+                JInv W {| sh := sh c; lock := lock c; thrs := replace_nth (thrs c) i {| todo := todo t; cur := cu |}; log := log c |}).
+      { intros cu CU. destruct (REPL (todo t) cu (fun p H => H)) as (R1 & R2).
+        - intros id' v' pc' E. rewrite (CU _ _ _ E). exact PW.
+        - split; [exact JL|]. split; [exact R1 | exact R2]. }
+      destruct pc.
+      all: try (destruct (outside && locked && _ && _);
+                [destruct (taken c); [now repeat split|]; split; [|split; [exact JT | exact JC]];
+                 cbn [log]; intros p Hp; apply in_app_or in Hp as [Hp|[<-|[]]]; [now apply JL | exact PW]
+                |destruct (micro (sh c) id v _) as [s' pc'];
+                 destruct (REPL (todo t) (Some (id, v, pc')) (fun p H => H)) as (R1 & R2);
+                 [intros id' v' pc'' E; inversion E; subst; exact PW | split; [exact JL|]; split; [exact R1 | exact R2]]]).
+      destruct (REPL (todo t) None (fun p H => H)) as (R1 & R2); [intros ? ? ? E; discriminate|].
+      split; [exact JL|]. split; [exact R1 | exact R2].
+    - destruct (todo t) as [|[id v] rest] eqn:TD; [now repeat split|].
+      assert (PW : In (id, v) W) by (eapply JT; [exact Ti|]; rewrite TD; now left).
+      destruct (REPL rest (Some (id, v, MCheck))) as (R1 & R2).
+      { intros p Hp. try rewrite TD. now right. }
+      { intros id' v' pc' E. inversion E; subst. exact PW. }
+      destruct outside; [split; [exact JL|]; split; [exact R1 | exact R2]|].
+      destruct (locked && taken c); [now repeat split|]. split; [|split; [exact R1 | exact R2]].
+      cbn [log]. intros p Hp. apply in_app_or in Hp as [Hp|[<-|[]]]; [now apply JL | exact PW].
   Qed.
 
-  Lemma exec_jinv W locked sched : forall c, JInv W c -> JInv W (exec locked c sched).
+  Lemma exec_jinv W locked outside sched : forall c, JInv W c -> JInv W (exec locked outside c sched).
   Proof.
     induction sched as [|i r IH]; intros c J; [exact J|]. cbn [StorageConc.exec fold_left]. apply IH. now apply cstep_jinv.
   Qed.
 
   Lemma start_jinv (s0 : st) work : JInv (concat work) (start s0 work).
   Proof.
-    split; [intros p []|]. intros i t p Hi Hp. cbn [start thrs] in Hi. apply nth_error_In in Hi.
-    apply in_map_iff in Hi as (w & <- & Hw). cbn [todo] in Hp. apply in_concat. eauto.
+    split; [intros p []|]. split.
+    - intros i t p Hi Hp. cbn [start thrs] in Hi. apply nth_error_In in Hi.
+      apply in_map_iff in Hi as (w & <- & Hw). cbn [todo] in Hp. apply in_concat. eauto.
+    - intros i t id v pc Hi Hc. cbn [start thrs] in Hi. apply nth_error_In in Hi.
+      apply in_map_iff in Hi as (w & <- & Hw). discriminate Hc.
   Qed.
 
   (* ---------------- the serial history is a history of the sequential model *)
@@ -235,7 +269,7 @@ Section ConcFacts.
      the accounting invariant (held <= counter, record = counter, everything held was put) ... *)
   Theorem locked_quiescent_inv Q (y0 : sys (V:=V)) work sched :
     SInv vlen Q y0 -> Forall (fun p => valid_id (node (mem y0)) (fst p)) (concat work) ->
-    let c := exec true (start (mem y0) work) sched in
+    let c := exec true false (start (mem y0) work) sched in
     quiescent c = true ->
     exists y', run y0 (map (fun p => OPut (fst p) (snd p)) (log c)) = Ok y' /\ mem y' = sh c /\
       SInv vlen (fun k v => Q k v \/ was_put (node (mem y0)) (map (fun p => OPut (fst p) (snd p)) (log c)) k v) y' /\
@@ -243,7 +277,7 @@ Section ConcFacts.
   Proof.
     intros S F c QU. pose proof S as ((_ & HN & _) & _).
     destruct (locked_is_serial (mem y0) work sched HN) as (SER & QL). fold c in SER, QL.
-    pose proof (exec_jinv (concat work) true sched _ (start_jinv (mem y0) work)) as (JL & _). fold c in JL.
+    pose proof (exec_jinv (concat work) true false sched _ (start_jinv (mem y0) work)) as (JL & _). fold c in JL.
     assert (FL : Forall (fun p => valid_id (node (mem y0)) (fst p)) (log c)).
     { apply Forall_forall. intros p Hp. rewrite Forall_forall in F. apply F, JL, Hp. }
     destruct (seq_puts_run Q (log c) y0 S FL) as (y' & R & M & S').
@@ -254,7 +288,7 @@ Section ConcFacts.
   Theorem locked_quiescent_within_capacity Q (y0 : sys (V:=V)) work sched :
     SInv vlen Q y0 -> cnt (mem y0) <= cap (mem y0) ->
     Forall (fun p => valid_id (node (mem y0)) (fst p) /\ 32 + vlen (snd p) <= expect (mem y0)) (concat work) ->
-    let c := exec true (start (mem y0) work) sched in
+    let c := exec true false (start (mem y0) work) sched in
     quiescent c = true -> cnt (sh c) <= cap (sh c) /\ held vlen (sh c) <= cap (sh c).
   Proof.
     intros S LC F c QU.
@@ -264,6 +298,91 @@ Section ConcFacts.
     rewrite <- M. eapply (history_within_capacity vlen vhead8 dec _ Q y0 y' S LC); [|exact R].
     apply Forall_forall. intros o Ho. apply in_map_iff in Ho as (p & <- & Hp). cbn [small_op].
     rewrite Forall_forall in F. exact (F p (JL p Hp)).
+  Qed.
+  (* ---------------- C06 over concurrent histories: radius clauses at every point where nobody is inside Put *)
+  Lemma locked_lockfree_run Q (y0 : sys (V:=V)) work sched :
+    SInv vlen Q y0 -> Forall (fun p => valid_id (node (mem y0)) (fst p)) (concat work) ->
+    let c := exec true false (start (mem y0) work) sched in
+    lock c = None ->
+    exists y', run y0 (map (fun p => OPut (fst p) (snd p)) (log c)) = Ok y' /\ mem y' = sh c /\
+      SInv vlen (fun k v => Q k v \/ was_put (node (mem y0)) (map (fun p => OPut (fst p) (snd p)) (log c)) k v) y' /\
+      (forall p, In p (log c) -> In p (concat work)) /\ node (sh c) = node (mem y0).
+  Proof.
+    intros S F c LF. pose proof S as ((_ & HN & _) & _).
+    destruct (locked_is_serial (mem y0) work sched HN) as (SER & _). fold c in SER.
+    pose proof (exec_jinv (concat work) true false sched _ (start_jinv (mem y0) work)) as (JL & _). fold c in JL.
+    pose proof (exec_locked_inv (mem y0) sched (start (mem y0) work) HN (start_inv (mem y0) work)) as (NE & _). fold c in NE.
+    assert (FL : Forall (fun p => valid_id (node (mem y0)) (fst p)) (log c)).
+    { apply Forall_forall. intros p Hp. rewrite Forall_forall in F. apply F, JL, Hp. }
+    destruct (seq_puts_run Q (log c) y0 S FL) as (y' & R & M & S').
+    exists y'. split; [exact R|]. split; [rewrite M; symmetry; apply SER, LF|]. split; [exact S'|]. split; [exact JL | exact NE].
+  Qed.
+
+  Lemma puts_are_puts (l : list (bytes * V)) : forallb (is_put_or_get (V:=V)) (map (fun p => OPut (fst p) (snd p)) l) = true.
+  Proof. induction l as [|p l IH]; [reflexivity | exact IH]. Qed.
+
+  Lemma puts_valid nd (l : list (bytes * V)) : Forall (fun p => valid_id nd (fst p)) l ->
+    Forall (valid_op nd) (map (fun p => OPut (fst p) (snd p)) l).
+  Proof. intros F. apply Forall_forall. intros o Ho. apply in_map_iff in Ho as (p & <- & Hp). rewrite Forall_forall in F. exact (F p Hp). Qed.
+
+  (* with the radius check inside the lock (the code as it is): whenever nobody is inside Put - after every schedule -
+     every retained item is within the radius, and the radius has not grown *)
+  Theorem conc_radius_inv Q (y0 : sys (V:=V)) work sched :
+    good dec -> SInv vlen Q y0 -> RInv dec (mem y0) ->
+    Forall (fun p => valid_id (node (mem y0)) (fst p)) (concat work) ->
+    let c := exec true false (start (mem y0) work) sched in
+    lock c = None -> RInv dec (sh c) /\ rad (sh c) <= rad (mem y0).
+  Proof.
+    intros G S R F c LF. destruct (locked_lockfree_run Q y0 work sched S F LF) as (y' & RU & M & _ & JL & _). fold c in RU, M, JL.
+    assert (FL : Forall (fun p => valid_id (node (mem y0)) (fst p)) (log c)).
+    { apply Forall_forall. intros p Hp. rewrite Forall_forall in F. apply F, JL, Hp. }
+    rewrite <- M. split.
+    - eapply (run_rinv vlen vhead8 dec _ Q y0 y' G S (puts_valid _ _ FL) R RU).
+    - eapply (run_radius_antitone vlen vhead8 dec _ Q y0 y' G S R (puts_valid _ _ FL) (puts_are_puts _) RU).
+  Qed.
+
+  Lemma cstep_log locked outside (c : cstate (V:=V)) i : exists l, log (cstep locked outside c i) = log c ++ l.
+  Proof.
+    unfold StorageConc.cstep. destruct (nth_error (thrs c) i) as [t|]; [|exists []; now rewrite app_nil_r].
+    destruct (cur t) as [[[id v] pc]|].
+    - destruct pc; try (destruct (outside && locked && _ && _); [destruct (taken c); [exists []; now rewrite app_nil_r | eexists; reflexivity]
+                        | destruct (micro (sh c) id v _); exists []; now rewrite app_nil_r]).
+      exists []. now rewrite app_nil_r.
+    - destruct (todo t) as [|[id v] rest]; [exists []; now rewrite app_nil_r|].
+      destruct outside; [exists []; now rewrite app_nil_r|].
+      destruct (locked && taken c); [exists []; now rewrite app_nil_r | eexists; reflexivity].
+  Qed.
+
+  Lemma exec_log locked outside sched : forall c : cstate (V:=V), exists l, log (exec locked outside c sched) = log c ++ l.
+  Proof.
+    induction sched as [|i r IH]; intros c; [exists []; now rewrite app_nil_r|]. cbn [StorageConc.exec fold_left].
+    destruct (cstep_log locked outside c i) as (l1 & E1). destruct (IH (cstep locked outside c i)) as (l2 & E2).
+    exists (l1 ++ l2). unfold StorageConc.exec in E2. now rewrite E2, E1, app_assoc.
+  Qed.
+
+  (* ... and between any two such points of one execution the radius only shrinks *)
+  Theorem conc_radius_antitone Q (y0 : sys (V:=V)) work sched1 sched2 :
+    good dec -> SInv vlen Q y0 -> RInv dec (mem y0) ->
+    Forall (fun p => valid_id (node (mem y0)) (fst p)) (concat work) ->
+    let c1 := exec true false (start (mem y0) work) sched1 in
+    let c2 := exec true false c1 sched2 in
+    lock c1 = None -> lock c2 = None -> rad (sh c2) <= rad (sh c1).
+  Proof.
+    intros G S R F c1 c2 L1 L2.
+    assert (E2 : c2 = exec true false (start (mem y0) work) (sched1 ++ sched2)).
+    { unfold c2, c1, StorageConc.exec. now rewrite fold_left_app. }
+    destruct (locked_lockfree_run Q y0 work sched1 S F L1) as (y1 & RU1 & M1 & S1 & JL1 & N1). fold c1 in RU1, M1, S1, JL1, N1.
+    rewrite E2 in L2. destruct (locked_lockfree_run Q y0 work (sched1 ++ sched2) S F L2) as (y2 & RU2 & M2 & _ & JL2 & _).
+    rewrite <- E2 in RU2, M2, JL2.
+    destruct (exec_log true false sched2 c1) as (l & EL). fold c2 in EL.
+    rewrite EL, map_app, run_app, RU1 in RU2. cbn [bind] in RU2.
+    assert (FL1 : Forall (fun p => valid_id (node (mem y0)) (fst p)) (log c1)).
+    { apply Forall_forall. intros p Hp. rewrite Forall_forall in F. apply F, JL1, Hp. }
+    assert (Fl : Forall (fun p => valid_id (node (mem y1)) (fst p)) l).
+    { apply Forall_forall. intros p Hp. rewrite M1, N1. rewrite Forall_forall in F. apply F, JL2. rewrite EL. apply in_or_app. now right. }
+    assert (R1 : RInv dec (mem y1)) by (eapply (run_rinv vlen vhead8 dec _ Q y0 y1 G S (puts_valid _ _ FL1) R RU1)).
+    rewrite <- M1, <- M2.
+    eapply (run_radius_antitone vlen vhead8 dec _ _ y1 y2 G S1 R1 (puts_valid _ _ Fl) (puts_are_puts _) RU2).
   Qed.
 End ConcFacts.
 
@@ -281,7 +400,7 @@ Definition conc_work : list (list (bytes * N)) := [[(key32 x00 x05, 100000)]; [(
 Definition conc_sched : list nat := [0; 0; 0; 0; 1; 1; 1; 1; 0; 1; 0; 0; 1; 1; 0; 1]%nat.
 
 Lemma conc_unlocked_refuted :
-  let c := exec nv_len le_to_N false (start conc_s0 conc_work) conc_sched in
+  let c := exec nv_len le_to_N false false (start conc_s0 conc_work) conc_sched in
   quiescent c = true /\
   cnt (sh c) = 900096 /\ held nv_len (sh c) = 1000128 /\          (* the usage figure under-reports what is held ... *)
   rec (sdb (sh c)) = Some (SizeRec 900096) /\                       (* ... and so does the persisted record ... *)
@@ -290,6 +409,45 @@ Proof. vm_compute. repeat split; reflexivity. Qed.
 
 (* the same schedule with the mutex: the serial result, within capacity *)
 Lemma conc_locked_same_schedule :
-  let c := exec nv_len le_to_N true (start conc_s0 conc_work) (conc_sched ++ conc_sched) in
+  let c := exec nv_len le_to_N true false (start conc_s0 conc_work) (conc_sched ++ conc_sched) in
   quiescent c = true /\ held nv_len (sh c) <= cnt (sh c) /\ cnt (sh c) <= cap (sh c).
 Proof. vm_compute. repeat split; discriminate. Qed.
+
+(* ================================================================ the radius check made BEFORE Lock() (seeded variant) *)
+
+(* big-endian decoder (the reading the property fixes), 1 MB store holding 00..01, 00..02, 00..03 (300 kB each).
+   B passes the radius check (radius = maximum) for the far id 00..c8 and waits for the lock; A puts 00..04 (150 kB),
+   goes over capacity, prunes and shrinks the radius to 3; then B stores its item at distance 200. *)
+Definition chk_s0 : st (V:=N) :=
+  match run nv_len nv_head be_to_N (init 1 K_contentDeletionPPM zero32)
+          [OPut (key32 x00 x01) 300000; OPut (key32 x00 x02) 300000; OPut (key32 x00 x03) 300000] with
+  | Ok y => mem y
+  | _ => mem (init 1 K_contentDeletionPPM zero32)
+  end.
+Definition chk_work2 : list (list (bytes * N)) := [[(key32 x00 x04, 150000)]; [(key32 x00 xc8, 17)]].
+(* B: start, check.  A: start, check, lock, add, commit, scan, load, store, return.  B: lock, add, commit, return *)
+Definition chk_sched2 : list nat := [1; 1; 0; 0; 0; 0; 0; 0; 0; 0; 0; 1; 1; 1; 1]%nat.
+
+Lemma check_outside_lock_refuted :
+  let c := exec nv_len be_to_N true true (start chk_s0 chk_work2) chk_sched2 in
+  quiescent c = true /\ lock c = None /\ rad (sh c) = 3 /\
+  In (key32 x00 xc8, 17) (kv (sdb (sh c))) /\ rad (sh c) < be_to_N (key32 x00 xc8).
+Proof. vm_compute. repeat split; try reflexivity. tauto. Qed.
+
+(* the same goroutines and scheduler choices with the check inside the lock: B is refused *)
+Lemma check_inside_lock_same_schedule :
+  let c := exec nv_len be_to_N true false (start chk_s0 chk_work2) (chk_sched2 ++ chk_sched2) in
+  quiescent c = true /\ rad (sh c) = 3 /\ lookup (key32 x00 xc8) (kv (sdb (sh c))) = None.
+Proof. vm_compute. repeat split; reflexivity. Qed.
+
+(* three goroutines: two far items (00..c8 small, 00..fa 60 kB) slip in the same way; A's next over-capacity put
+   prunes 00..fa, stops at 00..c8 - and the advertised radius GROWS from 3 to 200 *)
+Definition chk_work3 : list (list (bytes * N)) :=
+  [[(key32 x00 x04, 150000); (key32 x00 x01, 300000)]; [(key32 x00 xc8, 17)]; [(key32 x00 xfa, 60000)]].
+Definition chk_sched3 : list nat :=
+  [1; 1; 2; 2; 0; 0; 0; 0; 0; 0; 0; 0; 0; 1; 1; 1; 1; 2; 2; 2; 2; 0; 0; 0; 0; 0; 0; 0; 0; 0]%nat.
+Lemma check_outside_lock_radius_grows :
+  let c1 := exec nv_len be_to_N true true (start chk_s0 chk_work3) (firstn 13 chk_sched3) in
+  let c2 := exec nv_len be_to_N true true (start chk_s0 chk_work3) chk_sched3 in
+  lock c1 = None /\ rad (sh c1) = 3 /\ quiescent c2 = true /\ rad (sh c2) = 200.
+Proof. vm_compute. repeat split; reflexivity. Qed.
